@@ -297,6 +297,11 @@ int set_sip_nsip(struct msa* msa)
                 msa->nsip = NULL;
         }
 
+        if(msa->numseq < 1){
+                /* nothing to set up (an input in a recognised format without any sequence) */
+                msa->num_profiles = 0;
+                return OK;
+        }
         msa->num_profiles = (msa->numseq << 1 )-1;
 
         MMALLOC(msa->sip,sizeof(int*)* msa->num_profiles);
